@@ -108,6 +108,7 @@ PINS = {
     "C08": {"inv", "ret", "gq0", "cq", "skip", "err"},
     "C12": {"br", "inv", "ret", "cq", "sq", "gq0", "skip", "err"},
     "C13": {"inv", "ret", "skip", "err"},
+    "C11": {"inv", "ret", "skip", "err"},      # the by-value-argument and emission-result clauses of C11 on SigCore programs
     "C14": {"gq0", "inv", "ret", "cq", "pr", "skip", "err"},
     "C15": {"sq", "ret", "inv", "pf", "pr", "br", "skip", "err"},
     "C17": {"gq0", "cq", "inv", "ret", "skip", "err"},
